@@ -17,6 +17,7 @@ import (
 	"log"
 	"math/rand"
 	"os"
+	"sort"
 	"regexp"
 	"strconv"
 	"strings"
@@ -198,13 +199,45 @@ func strs(xs []string) T {
 	return a
 }
 
+// edited: the records of specs that were analysed and rendered, then edited in place, then analysed and rendered again
+var edited []O
+
 func one(id int, kind string, g map[string]*aNode, plain bool) O {
 	spec := build(g)
+	rec := observe(id, kind, g, plain, spec, true)
+	if rec != nil && kind == "gen" && id%2 == 0 {
+		// the same spec OBJECT with one more branch (to a node that does not exist) on its first node that has branching:
+		// what the tools say now is about the spec as it is now
+		names := []string{}
+		for name, an := range g {
+			if !an.Nobr && spec.Nodes[name] != nil && spec.Nodes[name].Branches != nil {
+				names = append(names, name)
+			}
+		}
+		sort.Strings(names)
+		if len(names) > 0 {
+			g2 := map[string]*aNode{}
+			for name, an := range g {
+				c := *an
+				c.Branches = append([]aBranch{}, an.Branches...)
+				g2[name] = &c
+			}
+			g2[names[0]].Branches = append(g2[names[0]].Branches, aBranch{Target: []interface{}{"lit", "zz"}, Guard: "none"})
+			spec.Nodes[names[0]].Branches.Branches = append(spec.Nodes[names[0]].Branches.Branches, &core.Branch{Target: "zz"})
+			if rec2 := observe(id+1000000, kind, g2, plain, spec, false); rec2 != nil {
+				edited = append(edited, rec2)
+			}
+		}
+	}
+	return rec
+}
+
+func observe(id int, kind string, g map[string]*aNode, plain bool, spec *core.Spec, first bool) O {
 	rec := O{"id": id, "kind": kind, "plainNames": plain}
 	// Every third generated graph has a node without content (`hollow:` in YAML, a nil *Node), which Compile replaces by an
 	// empty node; the tools are first run on the spec as loaded, uncompiled (spectool does that): they must not crash.
 	rawOutcomes := T{}
-	if kind == "gen" && id%3 == 0 {
+	if first && kind == "gen" && id%3 == 0 {
 		if _, have := g["hollow"]; !have {
 			g["hollow"] = &aNode{Action: "none", Interp: "", Nobr: true, Branches: []aBranch{}}
 			spec.Nodes["hollow"] = nil
@@ -220,9 +253,11 @@ func one(id int, kind string, g map[string]*aNode, plain bool) O {
 		}
 	}
 	rec["rawOutcomes"] = rawOutcomes
-	if err := spec.Compile(context.Background(), nil, true); err != nil {
-		rec["compile"] = err.Error()
-		return nil
+	if first {
+		if err := spec.Compile(context.Background(), nil, true); err != nil {
+			rec["compile"] = err.Error()
+			return nil
+		}
 	}
 	// the graph as compiled: Compile adds an empty error node
 	if _, have := g["error"]; !have {
@@ -333,6 +368,10 @@ func main() {
 		for id := 1; id <= n; id++ {
 			g, plain := genGraph()
 			out.write(one(id, "gen", g, plain))
+			for _, r := range edited {
+				out.write(r)
+			}
+			edited = nil
 		}
 	case "replay":
 		js, err := os.ReadFile(os.Args[2])
